@@ -3,6 +3,9 @@
 import json, os, glob
 HERE = os.path.dirname(os.path.dirname(os.path.abspath(__file__)))
 CHECKS = {
+ "C10": dict(cat="exploration", tech="bounded-exhaustive enumeration of correlation rules x backend correlation options x pipelines on the real converter with delimiter-structured templates that are parsed back into fields; extended conditions compared by truth table",
+             text="Three completely enumerated sub-products: types x operators x timespan units x counts x timespan modes; types x referenced-rule sets (1-4 rules, multi-condition, by id, nested correlation) x group-by x aliases x generate x {typing, single-rule template, sub-query finalisation} x pipelines (field mapping, prefix, post-processing); all extended condition trees up to the bound x precedence x parenthesize x tokens. Every parsed field (sub-queries in reference order and tagged, normalisation, timespan, group-by, referenced rules, operator/count/field/percentile, extended condition) must equal the reference record.",
+             note="sub-query text reference = fresh stand-alone conversion of the referenced rule; template grammar in mc/vcorr.py", ref="§3 C10"),
  "C20": dict(cat="exploration", tech="exhaustive enumeration of 'schedules' of a fixed corpus: a covering family of PYTHONHASHSEED values (searched until every iteration order of each probe set of <= 3 corpus strings is realised) x random seeds x forced-identical random draws x repeated process starts, each in a fresh interpreter running the same driver; byte comparison of every output",
              text="A corpus of order-sensitive inputs (1:n field mappings, nested pipelines, regex flag sets, add_condition, stacked filters, correlation sets, set-joined error messages, collected error records, validator run) is converted in separate interpreters under every hash seed of the covering family, several random seeds, a draw mode in which every internal random identifier is identical, and repeated starts; every item's queries / finalised output / error records must be identical and free of _cond_/_filt_ identifiers. Achieved permutation coverage is reported.",
              note="only hash orders of string sets are owned; identity-hashed validator order is covered by C19; validator issue list compared as multiset", ref="§3 C20"),
